@@ -1,1 +1,301 @@
-"""(rules registered here)"""
+"""Lock-discipline rules (C09): R-LOCK-1 acquire-before-use of state machines, R-LOCK-2 shared class-level parsers,
+R-LOCK-3/4 field -> lock tables (UCMM.sessions, logix.setup), R-LOCK-5 dfa_post, R-ISO per-connection locals."""
+import ast
+
+from .core import ( rule, Result, AnalysisError, dotted, call_name, is_call_to, names_in, attrs_in, walk_no_nested,
+                    norm_text, dotted_in, stmt_of, pmatch, pfind, txt )
+from .fold import try_fold
+from .cfg import CFG
+
+AUTOMATA = 'automata.py'
+QUICK_FILES = ( 'server/enip/main.py', 'server/enip/client.py', 'server/enip/logix.py', 'server/enip/parser.py', 'server/enip/ucmm.py',
+                'server/enip/device.py', 'server/enip/get_attribute.py', 'server/tnet.py', 'server/echo.py', 'server/enip/udt.py', 'readme.py' )
+
+
+def machine_run_calls( src ):
+    """calls `<recv>.run( ... source=... )` -- the signature of a state machine run (Thread.run etc. take no source=)"""
+    out = []
+    for c in ast.walk( src.tree ):
+        if isinstance( c, ast.Call ) and isinstance( c.func, ast.Attribute ) and c.func.attr == 'run' \
+           and any( k.arg == 'source' for k in c.keywords ):
+            out.append( c )
+    return out
+
+
+def with_targets( src, node ):
+    """[ ( With stmt, item ) ] enclosing node, innermost first"""
+    out = []
+    for a in src.ancestors( node ):
+        if isinstance( a, ( ast.With, ast.AsyncWith )):
+            for it in a.items:
+                out.append(( a, it ))
+        if isinstance( a, ( ast.FunctionDef, ast.AsyncFunctionDef, ast.Lambda )):
+            break
+    return out
+
+
+@rule( 'R-LOCK-1', props=( 'C09', ), floor=13 )
+def r_lock_1( ctx ):
+    """every <m>.run( source=... ) on a state machine happens while <m> is held by an enclosing `with ... as <m>` (or the dominated .safe() idiom of client)"""
+    res = Result( 'R-LOCK-1' )
+    files = list( QUICK_FILES )
+    if ctx.tier == 'thorough':
+        files = [ f for f in ctx.model.all_python() if f != AUTOMATA ]
+    for rel in files:
+        if not ctx.model.exists( rel ):
+            continue
+        src = ctx.src( rel )
+        for c in machine_run_calls( src ):
+            recv = c.func.value
+            rd = dotted( recv )
+            # docstring examples are not code; ast gives us only real calls
+            ok = False
+            why = ''
+            for w, it in with_targets( src, c ):
+                tgt = dotted( it.optional_vars ) if it.optional_vars is not None else None
+                if tgt is not None and tgt == rd:
+                    # `with <expr> as m:` -- m is what the context manager returned (dfa_base.__enter__ returns self)
+                    ok = True; why = 'with %s as %s' % ( norm_text( it.context_expr )[:50], tgt ); break
+                if it.optional_vars is None and dotted( it.context_expr ) == rd:
+                    ok = True; why = 'with %s' % rd; break
+            if not ok and rd is not None:
+                # the sanctioned exception: self.<x>.run dominated by self.<x>.safe() in a class whose __enter__/__exit__ delegate to self.<x>
+                fn = src.enclosing( c, ( ast.FunctionDef, ))
+                cls = src.enclosing( fn, ( ast.ClassDef, )) if fn is not None else None
+                if fn is not None and cls is not None and rd.startswith( 'self.' ):
+                    cfg = CFG( fn )
+                    safe = [ n for n in cfg.nodes if n.kind == 'stmt' and n.stmt is not None and pmatch( n.stmt, '%s.safe()' % rd ) ]
+                    runn = [ n for n in cfg.nodes if n.stmt is not None and n.kind == 'stmt' and any( x is c for x in ast.walk( n.stmt )) ]
+                    ent = [ m for m in cls.body if isinstance( m, ast.FunctionDef ) and m.name == '__enter__' and pfind( m, '%s.__enter__()' % rd ) ]
+                    ext = [ m for m in cls.body if isinstance( m, ast.FunctionDef ) and m.name == '__exit__' and pfind( m, '%s.__exit__( _a, _b, _c )' % rd ) ]
+                    if safe and runn and ent and ext and all( cfg.must_pass( cfg.entry, r, safe, correlated=False ) for r in runn ):
+                        ok = True; why = '%s.safe() dominates the run; %s.__enter__/__exit__ delegate to it' % ( rd, cls.name )
+            if ok:
+                res.ok( src, c, '%s.run( ... ) under %s' % ( rd, why ))
+            else:
+                res.bad( src, c, norm_text( c )[:120], 'a state machine is run without holding its lock: a dfa keeps per-parse state (current, cycle) and must be used by one thread at a time' )
+    return res
+
+
+SHARED = ( 'parser', 'parser_service_path' )
+
+
+@rule( 'R-LOCK-2', props=( 'C09', ), floor=3 )
+def r_lock_2( ctx ):
+    """class-level shared parsers are extended only by register_service_parser and never replaced or rewired at run time"""
+    res = Result( 'R-LOCK-2' )
+    for rel in ( 'server/enip/device.py', 'server/enip/logix.py', 'server/enip/ucmm.py', 'server/enip/main.py', 'server/enip/client.py' ):
+        src = ctx.src( rel )
+        n = 0
+        for s in ast.walk( src.tree ):
+            tg = s.targets if isinstance( s, ast.Assign ) else [ s.target ] if isinstance( s, ast.AugAssign ) else []
+            for t in tg:
+                for y in ast.walk( t ):
+                    # <X>.parser = ..., <X>.parser[...] = ..., <X>.parser.initial[...] = ... outside class bodies / register_service_parser
+                    if isinstance( y, ast.Attribute ) and y.attr in SHARED and isinstance( y.ctx, ( ast.Store, ast.Load )) and y is not t.__class__:
+                        qn = src.qualname_of( s )
+                        encl = src.enclosing( s, ( ast.FunctionDef, ))
+                        in_class_body = encl is None and isinstance( src.enclosing( s, ( ast.ClassDef, )), ast.ClassDef )
+                        if isinstance( t, ast.Attribute ) and t is y and dotted( t.value ) == 'self' and encl is not None and encl.name == '__init__':
+                            # per-instance parser (Attribute.parser = type_cls()): not shared
+                            res.ok( src, s, 'per-instance %s' % norm_text( s ), nontrivial=False ); n += 1
+                            continue
+                        if encl is not None and encl.name == 'register_service_parser':
+                            res.ok( src, s, 'register_service_parser: %s' % norm_text( s )[:80] ); n += 1
+                            continue
+                        if in_class_body:
+                            continue
+                        if isinstance( y.ctx, ast.Store ) or y is not t:
+                            res.bad( src, s, s, 'a shared class-level parser is modified outside register_service_parser (other sessions may be running it)' )
+        # class-level definitions
+        for cd in [ c for c in ast.walk( src.tree ) if isinstance( c, ast.ClassDef ) ]:
+            for s in cd.body:
+                if isinstance( s, ast.Assign ) and isinstance( s.targets[0], ast.Name ) and s.targets[0].id in SHARED:
+                    res.ok( src, s, 'class-level shared machine %s.%s' % ( cd.name, s.targets[0].id ))
+    # (registration happens at import time, before any session exists; it is the only sanctioned writer)
+    return res
+
+
+@rule( 'R-LOCK-3', props=( 'C09', ), floor=2 )
+def r_lock_3( ctx ):
+    """UCMM.sessions is mutated only inside `with self.lock`"""
+    res = Result( 'R-LOCK-3' )
+    src = ctx.src( 'server/enip/ucmm.py' )
+    cd = src.get( 'UCMM' )
+    n = 0
+    for s in ast.walk( cd ):
+        hit = None
+        if isinstance( s, ( ast.Assign, ast.AugAssign, ast.Delete )):
+            tg = s.targets if not isinstance( s, ast.AugAssign ) else [ s.target ]
+            for t in tg:
+                if isinstance( t, ast.Subscript ) and ( dotted( t.value ) or '' ).endswith( '.sessions' ):
+                    hit = s
+        if isinstance( s, ast.Call ) and isinstance( s.func, ast.Attribute ) and s.func.attr in ( 'pop', 'clear', 'update', 'setdefault', 'popitem', '__setitem__' ) \
+           and ( dotted( s.func.value ) or '' ).endswith( '.sessions' ):
+            hit = s
+        if hit is None:
+            continue
+        n += 1
+        held = [ a for a in src.ancestors( hit ) if isinstance( a, ast.With ) and any( txt( it.context_expr ) == 'self.lock' for it in a.items ) ]
+        if held:
+            res.ok( src, hit, '%s under `with self.lock`' % norm_text( hit )[:70] )
+        else:
+            res.bad( src, hit, hit, 'the shared sessions table is modified without holding UCMM.lock' )
+    # the membership test that makes handles unique reads the table under the same lock
+    for w in ast.walk( cd ):
+        if isinstance( w, ast.While ) and 'sessions' in attrs_in( w.test ):
+            held = [ a for a in src.ancestors( w ) if isinstance( a, ast.With ) and any( txt( it.context_expr ) == 'self.lock' for it in a.items ) ]
+            if held:
+                res.ok( src, w, 'handle uniqueness test under `with self.lock`' )
+            else:
+                res.bad( src, w, w.test, 'the uniqueness test and the insertion of a session handle must happen under one lock hold' )
+    lk = src.class_assign( 'UCMM', 'lock', required=False )
+    if lk is not None and is_call_to( lk.value, 'threading.Lock', 'threading.RLock' ):
+        res.ok( src, lk, 'UCMM.lock is one class-level lock shared by all sessions' )
+    else:
+        res.bad( src, cd, 'UCMM.lock', 'the sessions table needs one class-level lock' )
+    return res
+
+
+@rule( 'R-LOCK-4', props=( 'C09', ), floor=8 )
+def r_lock_4( ctx ):
+    """logix.setup: every Object construction, setup_tag call and setup.ucmm store is inside `with setup.lock`"""
+    res = Result( 'R-LOCK-4' )
+    src = ctx.src( 'server/enip/logix.py' )
+    fn = src.get( 'setup' )
+    withs = [ w for w in fn.body if isinstance( w, ast.With ) and any( txt( it.context_expr ) == 'setup.lock' for it in w.items ) ]
+    if len( withs ) != 1:
+        res.bad( src, fn, 'setup', 'one-time object creation is not serialised by `with setup.lock`' )
+        return res
+    inside = set( id( n ) for n in ast.walk( withs[0] ))
+    # local names bound to classes via kwds.get( '<x>_class', Default )
+    ctor_names = set()
+    for s in ast.walk( fn ):
+        if isinstance( s, ast.Assign ) and isinstance( s.targets[0], ast.Name ) and is_call_to( s.value, 'kwds.get' ):
+            ctor_names.add( s.targets[0].id )
+    for c in ast.walk( fn ):
+        what = None
+        if isinstance( c, ast.Call ):
+            cn = call_name( c )
+            if cn in ctor_names or ( any( k.arg == 'instance_id' for k in c.keywords )):
+                what = 'Object construction %s' % norm_text( c )[:50]
+            elif cn == 'setup_tag':
+                what = 'setup_tag call'
+            elif cn == 'lookup':
+                what = 'lookup (existence check)'
+            elif isinstance( c.func, ast.Call ) and is_call_to( c.func, 'kwds.get' ):
+                what = 'UCMM construction'
+        if isinstance( c, ast.Assign ) and any( dotted( t ) == 'setup.ucmm' for t in c.targets ):
+            what = 'setup.ucmm store'
+        if what is None:
+            continue
+        if id( c ) in inside:
+            res.ok( src, c, '%s under setup.lock' % what )
+        else:
+            res.bad( src, c, c, '%s outside `with setup.lock`: two first sessions can both create the objects' % what )
+    lk = [ s for s in src.tree.body if isinstance( s, ast.Assign ) and dotted( s.targets[0] ) == 'setup.lock' and is_call_to( s.value, 'threading.Lock', 'threading.RLock' ) ]
+    if lk:
+        res.ok( src, lk[0], 'setup.lock is a module-level lock' )
+    else:
+        res.bad( src, fn, 'setup.lock', 'setup.lock must be a single module-level lock' )
+    return res
+
+
+@rule( 'R-LOCK-5', props=( 'C09', 'C07' ), floor=4 )
+def r_lock_5( ctx ):
+    """dfa_post: closures are keyed by the current thread, popped under the lock and invoked after it is released; dfa_base enter/exit acquire/release"""
+    res = Result( 'R-LOCK-5' )
+    src = ctx.src( AUTOMATA )
+    cd = src.get( 'dfa_post' )
+    n = 0
+    for a in ast.walk( cd ):
+        if isinstance( a, ast.Attribute ) and a.attr == 'post' and dotted( a.value ) == 'self':
+            par = src.parent.get( a )
+            if isinstance( par, ast.Assign ) and a in par.targets:
+                continue			# self.post = {} in __init__
+            n += 1
+            call = par if isinstance( par, ast.Attribute ) else None
+            gp = src.parent.get( par ) if call is not None else None
+            if isinstance( gp, ast.Call ) and gp.args and pmatch( gp.args[0], 'threading.current_thread().ident' ):
+                res.ok( src, gp, 'self.post.%s keyed by threading.current_thread().ident' % par.attr )
+            elif isinstance( par, ast.Subscript ) and pmatch( par.slice, 'threading.current_thread().ident' ):
+                res.ok( src, par, 'self.post[...] keyed by threading.current_thread().ident' )
+            else:
+                res.bad( src, a, src.parent.get( par ) if par is not None else a, 'pending closures must be kept per thread (keyed by threading.current_thread().ident): another thread would run this thread\'s closures' )
+    if n < 2:
+        raise AnalysisError( 'dfa_post: accesses to self.post not found' )
+    ex = src.get( 'dfa_post.__exit__' )
+    cfg = CFG( ex )
+    sup = [ nd for nd in cfg.nodes if nd.stmt is not None and nd.kind == 'stmt' and any( is_call_to( c, '__exit__' ) and isinstance( c.func, ast.Attribute ) and is_call_to( c.func.value, 'super' ) for c in ast.walk( nd.stmt )) ]
+    inv = [ nd for nd in cfg.nodes if nd.stmt is not None and nd.kind == 'stmt' and pmatch( nd.stmt, 'closure()' ) ]
+    pops = [ c for c in ast.walk( ex ) if is_call_to( c, 'post_list.pop' ) or ( isinstance( c, ast.Call ) and isinstance( c.func, ast.Attribute ) and c.func.attr == 'pop' ) ]
+    if not sup or not inv or not pops:
+        raise AnalysisError( 'dfa_post.__exit__: release / pop / invoke statements not found' )
+    # pop under lock
+    for p in pops:
+        held = [ a for a in src.ancestors( p ) if isinstance( a, ast.With ) and any( txt( it.context_expr ) == 'self.lock' for it in a.items ) ]
+        if held:
+            res.ok( src, p, 'closure popped under `with self.lock`' )
+        else:
+            res.bad( src, p, p, 'the pending list must be popped while holding the lock' )
+    # invoke outside lock
+    for i in inv:
+        held = [ a for a in src.ancestors( i.stmt ) if isinstance( a, ast.With ) and any( txt( it.context_expr ) == 'self.lock' for it in a.items ) ]
+        if held:
+            res.bad( src, i.stmt, i.stmt, 'the closure is invoked while holding the lock: it re-enters the same parser and deadlocks' )
+        else:
+            res.ok( src, i.stmt, 'closure invoked outside the lock' )
+        # after the release: every path to the invocation passes super().__exit__
+        if cfg.must_pass( cfg.entry, i, sup, correlated=False ):
+            res.ok( src, i.stmt, 'closure invoked only after super().__exit__ released the lock' )
+        else:
+            res.bad( src, i.stmt, i.stmt, 'closures must run after the DFA lock has been released' )
+    # dfa_base __enter__/__exit__/safe
+    en = src.get( 'dfa_base.__enter__' ); ex2 = src.get( 'dfa_base.__exit__' ); sf = src.get( 'dfa_base.safe' )
+    if pfind( en, 'self.lock.acquire()' ) and pfind( en, 'return self' ):
+        res.ok( src, en, 'dfa_base.__enter__: acquire, return self' )
+    else:
+        res.bad( src, en, 'dfa_base.__enter__', 'must block on self.lock.acquire() and return self' )
+    if pfind( ex2, 'self.lock.release()' ):
+        res.ok( src, ex2, 'dfa_base.__exit__: release' )
+    else:
+        res.bad( src, ex2, 'dfa_base.__exit__', 'must release the lock' )
+    if [ a for a in ast.walk( sf ) if isinstance( a, ast.Assert ) and ( pmatch( a.test, 'self.lock.locked() is True' ) or pmatch( a.test, 'self.lock.locked()' )) ]:
+        res.ok( src, sf, 'dfa_base.safe asserts the lock is held' )
+    else:
+        res.bad( src, sf, 'dfa_base.safe', 'safe() must assert that the lock is held' )
+    rn = src.get( 'state.run' )
+    if pfind( rn, 'self.safe()' ):
+        res.ok( src, rn, 'state.run calls self.safe() first' )
+    else:
+        res.bad( src, rn, 'state.run', 'run must check safe() before touching per-parse state' )
+    ini = src.get( 'dfa_base.__init__' )
+    if pfind( ini, 'self.lock = threading.Lock()' ):
+        res.ok( src, ini, 'one lock per dfa instance' )
+    else:
+        res.bad( src, ini, 'dfa_base.__init__', 'each dfa instance needs its own lock' )
+    return res
+
+
+@rule( 'R-ISO', props=( 'C09', ), floor=4 )
+def r_iso( ctx ):
+    """per-connection parse state (source, data, machine) of the connection handlers is local: created per call, no global/class storage"""
+    res = Result( 'R-ISO' )
+    src = ctx.src( 'server/enip/main.py' )
+    for qn in ( 'enip_srv_tcp', 'enip_srv_udp' ):
+        fn = src.get( qn )
+        gl = [ s for s in ast.walk( fn ) if isinstance( s, ( ast.Global, ast.Nonlocal )) ]
+        for g_ in gl:
+            if set( g_.names ) & { 'source', 'data', 'machine', 'engine' }:
+                res.bad( src, g_, g_, 'per-connection parse state must be local to the handler' )
+        srcs = pfind( fn, 'source = rememberable()' )
+        if srcs:
+            res.ok( src, srcs[0][0], '%s: source = rememberable() created per connection/iteration' % qn )
+        else:
+            res.bad( src, fn, '%s source' % qn, 'each connection needs its own input source' )
+        mach = [ w for w in ast.walk( fn ) if isinstance( w, ast.With ) and any( is_call_to( it.context_expr, 'parser.enip_machine' ) and dotted( it.optional_vars ) == 'machine' for it in w.items ) ]
+        if mach:
+            res.ok( src, mach[0], '%s: its own enip_machine instance, held for the connection' % qn )
+        else:
+            res.bad( src, fn, '%s machine' % qn, 'each connection must construct and hold its own frame machine' )
+    return res
